@@ -36,6 +36,10 @@ LEVEL_NOTE = (
     'the number of formula cells).')
 DESIGN_REF = '§4 C04'
 
+# theorems of the integrated pipeline model (Props/X01.lean) that carry this property's theorems to formula TEXTS in a
+# compiled workbook; re-built and audited with this check (harness/common.prepare: soft obligations)
+TRANSPORT = ('XlVerif.Props.X01', ['X01_pure', 'X01_history'])
+
 TRUSTED = [
     'Lean 4.33 kernel; axioms propext, Classical.choice, Quot.sound only',
     'hand-written model lean/XlVerif/Model/Evaluator.lean of evaluator.py / model.py / RangeNode.eval, tied to '
